@@ -244,6 +244,28 @@ theorem find_pair_not_mem {β : Type} : ∀ {l : List (String × β)} {x : Strin
       simp only [List.cons_append, List.find?, hne]
       exact find_pair_not_mem rest h.2
 
+theorem cellOf_some {u : Fir.Unit} {st : St} {p : String × Ex} {q : String × Cell} (hc : cellOf u st p = some q) :
+    ∃ d data c', findDecl u p.1 = some d ∧ actualData st p.2 = some data ∧
+      fillCell (.scalar d.ty none) data = some c' ∧ q = (p.1, c') := by
+  unfold cellOf at hc
+  simp only [Option.bind_eq_bind, Option.pure_def] at hc
+  cases h1 : findDecl u p.1 with
+  | none => rw [h1] at hc; simp at hc
+  | some d =>
+    rw [h1] at hc
+    simp only [Option.bind_some] at hc
+    cases h2 : actualData st p.2 with
+    | none => rw [h2] at hc; simp at hc
+    | some data =>
+      rw [h2] at hc
+      simp only [Option.bind_some] at hc
+      cases h3 : fillCell (.scalar d.ty none) data with
+      | none => rw [h3] at hc; simp at hc
+      | some c' =>
+        rw [h3] at hc
+        simp only [Option.bind_some, Option.some.injEq] at hc
+        exact ⟨d, data, c', rfl, rfl, h3, hc.symm⟩
+
 theorem mapM_cells {u : Fir.Unit} {st : St} :
     ∀ {ps : List (String × Ex)} {cells : List (String × Cell)}, ps.mapM (cellOf u st) = some cells →
       cells.map (·.1) = ps.map (·.1) ∧ ∀ p, p ∈ ps → ∃ c, cellOf u st p = some (p.1, c) ∧ (p.1, c) ∈ cells
@@ -263,20 +285,8 @@ theorem mapM_cells {u : Fir.Unit} {st : St} :
           subst h
           obtain ⟨ih1, ih2⟩ := mapM_cells hr
           have hq : q.1 = p.1 := by
-            unfold cellOf at hc
-            simp only [Option.bind_eq_bind, Option.pure_def] at hc
-            cases h1 : findDecl u p.1 with
-            | none => rw [h1] at hc; simp at hc
-            | some d =>
-              cases h2 : actualData st p.2 with
-              | none => rw [h1, h2] at hc; simp at hc
-              | some data =>
-                cases h3 : fillCell (.scalar d.ty none) data with
-                | none => rw [h1, h2, h3] at hc; simp at hc
-                | some c' =>
-                  rw [h1, h2, h3] at hc
-                  simp only [Option.bind_some, Option.some.injEq] at hc
-                  rw [← hc]
+            obtain ⟨d, data, c', _, _, _, hq⟩ := cellOf_some hc
+            rw [hq]
           refine ⟨by simp [ih1, hq], fun p' hp' => ?_⟩
           rcases List.mem_cons.mp hp' with he | he
           · subst he
